@@ -1,11 +1,27 @@
 # Per-property claims (read by mkmanifest.py).  Keep in sync with DESIGN.md section 4.
 HOOK_COMMITS = []
+_V = "contract-based deductive verification (Verus) of function text extracted mechanically from /repo/src on every run"
+_COMMON_NOTE = ("Assumed (listed in the evidence under trusted_base / assumptions): the contracts of stubbed callees that have no home unit, vstd's std specs, "
+                "the std contracts in prelude/std_assumed.rs, ansi_term/syntect/regex behaviour, 64-bit usize. Exit 2 (undecided) when an anchor is lost or the verifier cannot decide; never a VIOLATION then.")
 CLAIMS = {
+ "C01": dict(
+    text="Proof (Verus, unbounded) of the per-call contracts that carry 'every hunk line once, in order, intact, not moved past a header': handle_hunk_line extends the ghost sequence all_lines = rendered ++ pending by exactly one entry (the prepared line of the new state's marker width) and never reorders it; paint_buffered/emit/prepare/emit_line_unchanged and every file-header handler preserve all_lines; the output buffer is empty at every direct write (OD); detect_source's table. Per-call invariants quantify over all inputs and histories, which tests cannot.",
+    note=_COMMON_NOTE + " Not decided: ansi_term/syntect string assembly inside paint_lines, the side-by-side path, what the regexes accept."),
+ "C04": dict(
+    text="Proof (Verus) that emit_line_unchanged flushes and then writes exactly format_raw_line(raw_line) followed by a newline, that format_raw_line is the identity unless hyperlinks are on and stdout is a tty, and of the 'decline' facet of the handlers under contract (predicate false => Ok(false), nothing written, state unchanged).",
+    note=_COMMON_NOTE + " Conditional on 'no handler's predicate holds' (regex semantics are not modelled)."),
+ "C10": dict(
+    text="Proof (Verus) of the reset contract of handle_diff_header_diff_line (per-file fields become functions of the current line, nothing stays buffered, pending header and mode info are consumed), of OD at the section boundary, and that file-header writers consume mode_info.",
+    note=_COMMON_NOTE + " The concatenation theorem over whole runs is not decided; determinism of hash-ordered iterations is handled by the fixes recorded in known-findings.txt."),
  "C11": dict(
-    text="Proof (Verus, unbounded) of the per-line streaming contract of the real handle_hunk_line: after every handled hunk line the output buffer has been emitted, at most line_buffer_size+1 removed/added lines are held back, an unchanged line leaves nothing buffered, and the writer's ghost history is only ever extended. This is the right level because the property quantifies over all input prefixes and the bound is a loop-free per-call invariant.",
-    note="Assumed: contracts of the callee stubs listed in the evidence (verified in their home units where one exists), OS/pager buffering in main.rs is outside the claim.",
- ),
+    text="Proof (Verus, unbounded) of the per-line streaming contract of the real handle_hunk_line: after every handled hunk line the output buffer has been emitted, at most line_buffer_size+1 removed/added lines are held back, an unchanged line leaves nothing buffered, and the ghost sequence of rendered lines is only ever extended (never revised).",
+    note=_COMMON_NOTE + " OS/pager buffering in main.rs is outside the claim."),
+ "C14": dict(
+    text="Proof (Verus) of the header-emission contracts: each file-header handler writes at most one header per call (bounded growth of the ghost history), write_generic's blank-line/omit/color-only cases, the diff-line handler resets the handled/current pair, claims exactly the lines with the literal prefix 'diff '.",
+    note=_COMMON_NOTE + " Exact header counts over whole histories and box drawing are not decided."),
 }
 _NOT_YET = "check not built yet in this session (planned, see DESIGN.md section 4)"
-NA = {p: _NOT_YET for p in ["C01","C02","C03","C04","C05","C06","C07","C08","C09","C10","C12","C13","C14","C15","C16","C17","C19","C20"]}
+NA = {p: _NOT_YET for p in ["C02","C03","C05","C06","C07","C08","C09","C12","C13","C15","C16","C17","C19","C20"]}
 NA["C18"] = "quantifies over OS-level fault sequences, child exit statuses and pager selection (run_app / OutputType::try_pager: Command::spawn, wait, process::exit); neither installed deductive verifier has a model of these and no function with a meaningful contract can be separated without refactoring unguarded source (DESIGN.md section 5)"
+for _p in CLAIMS:
+    CLAIMS[_p].setdefault("technique", _V)
